@@ -337,6 +337,7 @@ def err_s(e):
         # an exception of the server side that has no wire translation: (b"error", <class name>, <message>)
         tup = getattr(e, "error_tuple", ()) or ()
         inner = tup[1].decode("ascii", "replace") if len(tup) > 1 and isinstance(tup[1], bytes) else "?"
+        inner = inner.split(".")[-1]          # e.g. vcsgraph.errors.RevisionNotPresent
         return ERRS.get(inner, "E:other:server:" + inner)
     if name in INFRA_ERRS:
         raise env.InfraError("smart-server / locking problem while running a case: %s: %s" % (name, e))
